@@ -11,12 +11,12 @@ from lib.common import *
 ASSUME = ["entries are classified by lstat + the shape of the link text (absolute or 'type:[ino]' = magic-link)",
           "files in /proc may legitimately refuse to open (permissions, EIO, ...): for class 'file' any errno other than ENOTDIR/ELOOP/EXDEV/ENOENT is accepted in place of success, but both resolvers must agree",
           "the handle is ProcfsHandle::new() (private fsopen instance for the privileged worker); both procfs resolvers are selected by masking openat2"]
-DECO = {"": "%s", "/": "%s/", "/.": "%s/.", "/..": "%s/..", "/nx-child": "%s/nx-child", "./": "./%s", "/..NUL": "%s/..\x00"}
+DECO = {"": "%s", "/": "%s/", "/.": "%s/.", "/..": "%s/..", "/nx-child": "%s/nx-child", "./": "./%s", "/..NUL": "%s/..\x00", "/./../..": "%s/./../.."}
 OPS = {"open_rdonly": ("proc_open", O["RDONLY"] | O["NONBLOCK"]), "open_path": ("proc_open", O["PATH"]), "open_dir": ("proc_open", O["RDONLY"] | O["DIRECTORY"] | O["NONBLOCK"]),
        "open_follow_path": ("proc_open_follow", O["PATH"]), "open_follow_dir": ("proc_open_follow", O["PATH"] | O["DIRECTORY"]), "readlink": ("proc_readlink", 0),
        "open_follow_nf_path": ("proc_open_follow", O["PATH"] | O["NOFOLLOW"]), "open_follow_nf_rdonly": ("proc_open_follow", O["RDONLY"] | O["NONBLOCK"] | O["NOFOLLOW"]),
        "open_excl": ("proc_open", O["EXCL"] | O["RDONLY"] | O["NONBLOCK"]), "open_follow_excl": ("proc_open_follow", O["EXCL"] | O["RDONLY"] | O["NONBLOCK"]),
-       "open_follow_creat_excl": ("proc_open_follow", O["CREAT"] | O["EXCL"] | O["RDWR"]),
+       "open_follow_creat_excl": ("proc_open_follow", O["CREAT"] | O["EXCL"] | O["RDWR"]), "open_follow_tmpbit": ("proc_open_follow", 0o20000000 | O["RDWR"]),
        "open_creat": ("proc_open", O["CREAT"] | O["RDWR"]), "open_follow_creat": ("proc_open_follow", O["CREAT"] | O["RDWR"]), "open_tmpfile": ("proc_open", O["TMPFILE"] | O["RDWR"])}
 SKIP = {"kmsg", "kcore", "sysrq-trigger", "kpagecount", "kpageflags", "kpagecgroup", "kallsyms", "pagemap", "mem", "clear_refs"}
 
@@ -104,9 +104,14 @@ def main(tier_):
                 v.violation(dict(check="proc-class", kind=kind, deco=d, op=o, resolver=bname, got=cls, want=exp, name=name if kind != "file" else "<file>"),
                             "C07: %s(%s, %r) [%s resolver] on a %s entry gave %s; the class table (ProcClass.tla) expects %s" % (o, base, path, bname, kind, cls, exp), dict(base=base, path=path, op=o))
         # ("/..NUL": both must fail -- the class rule above -- but the emulated walk may meet another error before it reaches the NUL component)
-        if d not in ("/..", "/..NUL") and len(g) == 2 and g["openat2"] != g["opath"]:
+        if d not in ("/..", "/..NUL", "/./../..") and len(g) == 2 and g["openat2"] != g["opath"]:
             v.violation(dict(check="proc-resolvers-agree", kind=kind, deco=d, op=o, openat2=g["openat2"], opath=g["opath"], name=name if kind != "file" else "<file>"),
                         "C07: %s(%s, %r) on a %s entry: openat2 resolver gives %s, emulated resolver gives %s" % (o, base, path, kind, g["openat2"], g["opath"]), dict(base=base, path=path, op=o))
+        # ".." decorations: the emulated resolver may refuse (EXDEV) what RESOLVE_BENEATH still allows, never the other way
+        # round -- a success of the emulated resolver where openat2 refuses means it climbed above the base
+        if d in ("/..", "/./../..") and len(g) == 2 and g["opath"] in ("self", "target", "body") and g["openat2"] not in ("self", "target", "body"):
+            v.violation(dict(check="proc-dotdot-leaves-base", kind=kind, deco=d, op=o, openat2=g["openat2"], opath=g["opath"]),
+                        "C07: %s(%s, %r) on a %s entry: the emulated resolver succeeded (%s) through '..' where openat2 with RESOLVE_BENEATH refuses (%s): it left the base" % (o, base, path, kind, g["opath"], g["openat2"]), dict(base=base, path=path, op=o))
         if len(samples) < 6 and kind in ("magic", "symdir", "symfile") and d in ("/", "/nx-child"):
             samples.append(dict(base=base, path=path, op=o, kind=kind, openat2=g.get("openat2"), opath=g.get("opath"), expected=exp))
     rc = v.finish()
